@@ -739,13 +739,23 @@ def _parse_listing(s):
     return out
 
 
+UNSUPPORTED = "setup-failed immutable-flag-unsupported"
+
+
 def compare(case, impl, model):
+    # A fault case whose file-system fault cannot be produced here (FS_IOC_SETFLAGS refused: not root,
+    # or a file system without the immutable flag) was not run at all; it is counted in `describe`
+    # ("fault cases skipped: ...") and judged neither by compare nor by the oracle.
+    if impl.startswith(UNSUPPORTED):
+        return True
     return impl == model
 
 
 def oracle(case, impl):
     """Property text on implementation outputs only. State before each request = the planted files
     (from the case) or the listing the implementation side printed after the previous request."""
+    if impl.startswith(UNSUPPORTED):
+        return None
     if impl.startswith(("panic", "CRASH", "setup-failed", "bad-op")):
         return "driver could not observe the requests: " + impl[:200]
     if case.startswith(("c01cmp ", "c01gwp ")):
@@ -836,6 +846,8 @@ def describe(cases, impl):
     d = {"volumes": {}, "planted": {}, "requests": {}, "flags": {}, "statuses": {}, "max_content_bytes": 0,
          "symbolic_cases": 0}
     for c, out in zip(cases, impl):
+        if (out or "").startswith(UNSUPPORTED):
+            d["fault_cases_skipped_immutable_flag_unsupported"] = d.get("fault_cases_skipped_immutable_flag_unsupported", 0) + 1
         if c.startswith(("c01cmp ", "c01gwp ")):
             op = c.split(" ", 1)[0]
             d.setdefault("unit_ops", {})
